@@ -76,6 +76,25 @@ Theorem C02_three_link `{Sig} : forall E n ld rd c w0 cnt w' cnt',
 Proof. exact three_link_done. Qed.
 Print Assumptions C02_three_link.
 
+(** The refusal clause: a 3-link that terminates normally was asked to glue mirrorable faces (both closed with as
+    many sides, or both open with equally long chains after and before the darts) ... *)
+From HC Require Import Map3.Wf3Mirror.
+Theorem C02_three_link_mirrorable `{Sig} : forall E n ld rd c w0 cnt w' cnt',
+  wf3 n w0 -> okd3p n w0 ld -> okd3p n w0 rd -> ld <> rd ->
+  run E (three_link n ld rd) c w0 cnt = (Done tt, w', cnt') -> mirrorable n w0 ld rd = true.
+Proof. exact three_link_mirrorable. Qed.
+Print Assumptions C02_three_link_mirrorable.
+
+(** ... hence a request to 3-link or 3-sew two faces that cannot be mirrored onto each other never succeeds and
+    leaves the map exactly as it was (that the outcome is an error value rather than a hang or a crash is what
+    the correspondence with the implementation shows on every explored input). *)
+Theorem C02_refuses_non_mirrorable `{Sig} : forall fa st l r (sew : bool),
+  let c := if sew then S3 l r else L3 l r in
+  inv3 st -> pre_call3b (nd st) (mem st) c = true -> mirrorable (nd st) (mem st) l r = false ->
+  (forall x, fst (step3 fa st (Force3 c)) <> ROk x) /\ snd (step3 fa st (Force3 c)) = st.
+Proof. exact refuses_non_mirrorable. Qed.
+Print Assumptions C02_refuses_non_mirrorable.
+
 (** Non-vacuity: a concrete history meets the premises of [C02_history] and really glues two triangles face to
     face, then takes them apart again (executed on the f64 instance of the model). *)
 From Coq Require Import Floats. Import ListNotations.
